@@ -82,9 +82,25 @@ fn check_dict<H: AsRef<[usize]> + SelectUnchecked + SelectZeroUnchecked>(cx: &mu
         let want = if lo > 0 { Some(v[lo - 1]) } else { None };
         let got = cx.must("pred_strict", || ef.pred_strict(q))?;
         check_pair(cx, "pred_strict", q, got, want, v, u)?;
+        // generic callers holding a reference must get the same answers
+        let direct = (cx.must("index_of", || ef.index_of(q))?, present, cx.must("succ", || ef.succ(q))?, cx.must("succ_strict", || ef.succ_strict(q))?, cx.must("pred", || ef.pred(q))?, got);
+        let fw = cx.must("via &T", || via_forwarding(ef, q))?;
+        cx.check(fw == direct, "forwarding", || format!("answers through the `&T` implementations of IndexedDict/Succ/Pred differ from direct calls for q={q}: {fw:?} vs {direct:?} (n={n} u={u})"))?;
+        let fw2 = cx.must("via &&T", || via_forwarding(&ef, q))?;
+        cx.check(fw2 == direct, "forwarding", || format!("answers through `&&T` differ from direct calls for q={q}: {fw2:?} vs {direct:?}"))?;
     }
     cx.nontrivial_if((n >= 2 && absent_interior) || ["q>u", "q=u", "n=0&u>0", "n=0&u=0", "n=1", "dup"].iter().any(|l| cx.has_label(l)));
     Ok(())
+}
+
+/// The same queries through the forwarding implementations of the traits
+/// (`&T`, and `Box<T>` where the traits provide one): generic code receiving
+/// the dictionary as `D: Succ + Pred + IndexedDict`.
+fn via_forwarding<D>(d: D, q: usize) -> (Option<usize>, bool, Option<(usize, usize)>, Option<(usize, usize)>, Option<(usize, usize)>, Option<(usize, usize)>)
+where
+    D: IndexedDict<Input = usize, Output = usize> + Succ<Input = usize, Output = usize> + Pred<Input = usize, Output = usize>,
+{
+    (d.index_of(q), d.contains(q), d.succ(q), d.succ_strict(q), d.pred(q), d.pred_strict(q))
 }
 
 fn check_pair(cx: &mut Ctx, what: &str, q: usize, got: Option<(usize, usize)>, want: Option<usize>, v: &[usize], u: usize) -> R {
